@@ -17,11 +17,23 @@ sys.path.insert(0, HERE)
 import mutscreen as M
 import gen_src as G
 
-DEPENDENTS = {"encode_varint": ["encode_varint", "prepend_compact_size"], "op_push_data": ["op_push_data", "push_integer"]}
+DEPENDENTS = {"encode_varint": ["encode_varint", "prepend_compact_size", "add_magic_prefix"], "op_push_data": ["op_push_data", "push_integer"],
+              "schnorr_tagged_hash": ["tagged_hash"], "tagged_hash": ["tagged_hash", "tapbranch_tagged_hash", "tapleaf_tagged_hash"]}
+ONLY = [a for a in sys.argv[1:] if not a.startswith("--") and not a.endswith(".json")]
 
 
-def probes(qual):
+def probes(qual, file=""):
     r = random.Random(5)
+    if qual == "add_magic_prefix":
+        return [(m,) for m in ["", "a", "x" * 252, "y" * 253, "z" * 70000, "\u00e9\u00e9", "\u00e9" * 127, "\u00e9" * 126 + "a", "ab\ncd"]]
+    if qual == "tagged_hash":
+        pairs = [(b"", "TapLeaf"), (b"\x00" * 32, "TapBranch"), (bytes(range(64)), "BIP0340/challenge"), (b"abc", "x"), (bytes(100), "TapTweak")]
+        return [(t, d) for d, t in pairs] if file.endswith("schnorr.py") else pairs
+    if qual == "tapbranch_tagged_hash":
+        a, b = bytes(range(32)), bytes(range(1, 33))
+        return [(a, b), (b, a), (a, a), (bytes(32), b"\xff" * 32), (b"\xff" * 32, bytes(32)), (b"\x01" + bytes(31), b"\x00" + b"\xff" * 31)]
+    if qual == "tapleaf_tagged_hash":
+        return [(["OP_1"],), (["aa" * 75],), (["aa" * 76, "OP_CHECKSIG"],), (["bb" * 300],), ([],), (["cc" * 70000],)]
     ints = [-1, 0, 1, 2, 16, 17, 75, 76, 127, 128, 129, 252, 253, 254, 255, 256, 257, 32767, 32768, 65535, 65536, 65537, 2 ** 22, 2 ** 22 + 5,
             2 ** 31 - 1, 2 ** 31, 2 ** 32 - 1, 2 ** 32, 2 ** 32 + 1, 2 ** 63, 2 ** 64 - 1, 2 ** 64, 2 ** 64 + 1, 2 ** 70] + \
            [r.getrandbits(k) for k in (7, 8, 9, 15, 16, 17, 23, 24, 31, 32, 33, 40, 63, 64) for _ in range(6)]
@@ -45,7 +57,7 @@ def probes(qual):
     return []
 
 
-def behaviour(repo, qual):
+def behaviour(repo, qual, file=""):
     """outputs of the function on the probe inputs, in a subprocess importing from `repo`"""
     code = r'''
 import sys, json
@@ -53,10 +65,17 @@ sys.path.insert(0, %r); sys.path.insert(0, %r)
 import tiescreen as T
 from bitcoinutils import utils, script, transactions
 qual = %r
+file = %r
+from bitcoinutils import schnorr
 out = []
-for args in T.probes(qual):
+for args in T.probes(qual, file):
     try:
-        if qual in ("encode_varint", "prepend_compact_size", "parse_compact_size", "vi_to_int"):
+        if qual == "tagged_hash" and file.endswith("schnorr.py"):
+            r = schnorr.tagged_hash(*args)
+        elif qual == "tapleaf_tagged_hash":
+            r = utils.tapleaf_tagged_hash(script.Script(args[0]))
+        elif qual in ("encode_varint", "prepend_compact_size", "parse_compact_size", "vi_to_int", "add_magic_prefix", "tagged_hash",
+                    "tapbranch_tagged_hash"):
             r = getattr(utils, qual)(*args)
         elif qual.startswith("Script."):
             r = getattr(script.Script([]), qual.split(".")[1])(*args)
@@ -71,7 +90,7 @@ for args in T.probes(qual):
     except BaseException as e:
         out.append("RAISE")
 print(json.dumps(out))
-''' % (HERE, repo, qual)
+''' % (HERE, repo, qual, file)
     try:
         p = subprocess.run([sys.executable, "-c", code], capture_output=True, text=True, timeout=120)
         return json.loads(p.stdout) if p.returncode == 0 else ["CRASH"]
@@ -95,9 +114,11 @@ def main():
         try:
             for t in G.TARGETS:
                 name = t["coq"][len("src_"):]
+                if ONLY and name not in ONLY:
+                    continue
                 src = open(os.path.join(repo, t["file"])).read()
                 fn = M.func_nodes(ast.parse(src), {t["qual"]})[t["qual"]]
-                base_beh = behaviour(repo, t["qual"])
+                base_beh = behaviour(repo, t["qual"], t["file"])
                 for (idx, desc, how) in M.mutation_sites(fn):
                     m = {"file": t["file"], "func": t["qual"], "idx": idx, "desc": desc, "how": how}
                     d = os.path.join(scratch, "m"); shutil.rmtree(d, ignore_errors=True); os.makedirs(d)
@@ -105,7 +126,7 @@ def main():
                         M.build_mutant(m, repo, d)
                     except Exception as e:
                         res.append(dict(m, tie="invalid")); continue
-                    beh = behaviour(d, t["qual"])
+                    beh = behaviour(d, t["qual"], t["file"])
                     changed = beh != base_beh
                     p = subprocess.run([sys.executable, os.path.join(HERE, "gen_src.py"), d], capture_output=True, text=True)
                     if ("UNTRANSLATED " + t["coq"]) in p.stdout:
